@@ -25,7 +25,7 @@ UNARY_ITEMS = {"ZExt": [("by", "WidthInt")], "SExt": [("by", "WidthInt")], "Extr
 
 def build(ub, algebra_text):
     common_prelude(ub, algebra_text)
-    for b in BUILDERS + MORE_BUILDERS + ["array_const", "one"]:
+    for b in dict.fromkeys(BUILDERS + MORE_BUILDERS + ["array_const", "one"]):
         ub.emit_fn(CTX, b, "stub")
     ub.emit_fn("patronus/src/expr/types.rs", "get_bv_type", "stub", spec_key="ExprRef::get_bv_type")
     src = ub.src(PARSER)
